@@ -67,6 +67,7 @@ def circuit_spec(
     name="c",
     single_output=False,
     min_fanin_nary=1,
+    shuffle=True,
 ):
     """Draw a lint-clean circuit spec (see cgv.specs)."""
     n_in = draw(st.integers(min_inputs, max_inputs))
@@ -81,8 +82,9 @@ def circuit_spec(
         n_inst = draw(st.integers(0, max_insts))
         if n_inst:
             n_types = draw(st.integers(1, min(2, n_inst)))
-            pin_in = ["d", "clk", "en", "A"]
-            pin_out = ["q", "qn", "Y"]
+            # some pin names are suffixes of others (d/sd, clk/gclk, q/nq)
+            pin_in = ["d", "clk", "en", "A", "sd", "gclk"]
+            pin_out = ["q", "qn", "Y", "nq"]
             for ti in range(n_types):
                 ins = draw(st.lists(st.sampled_from(pin_in), min_size=0, max_size=3, unique=True))
                 outs = draw(
@@ -194,6 +196,9 @@ def circuit_spec(
             if outputs in ("sinks+random", "random"):
                 if (not is_io or io_outputs) and draw(st.integers(0, 5)) == 0:
                     x[3] = True
+    if shuffle and draw(st.booleans()):
+        # node storage order need not be topological (specs.build adds all nodes, then all edges)
+        nodes = list(draw(st.permutations(nodes)))
     return {"name": name, "nodes": nodes, "bbtypes": bbtypes, "insts": insts}
 
 
